@@ -280,6 +280,8 @@ func oneLine(s string) string {
 }
 
 func check(t ev.TB, test string, pl payload, feat map[string]int) {
+	ev.InFlight(test, pl)
+	defer ev.InFlightDone()
 	p, inputs := pl.Program, pl.Inputs
 	ro, why := refx.Stable(p, inputs, ref.DefaultConfig())
 	if why != "" {
